@@ -2,10 +2,21 @@ package run
 
 // Registry lists every harness, per property.
 func Registry() []*Spec {
-	return []*Spec{
-		{Property: "C01", Name: "VerifC01_Direct", Pkg: "oj",
-			Quick: map[string]int{"N": 3}, Thorough: map[string]int{"N": 5},
-			Covers: []string{"accepted", "rejected"}, UnitDepth: 3,
-			Note: "every byte string of length <= N through oj.Parse vs the RFC 8259 reference recogniser"},
+	var r []*Spec
+	add := func(s Spec) { c := s; r = append(r, &c) }
+
+	// ---- strict JSON front-ends: C01 (language), C06 (no panic), C09 (positions)
+	direct := Spec{Name: "VerifJSON_Direct", Pkg: "oj",
+		Quick: map[string]int{"N": 3}, Thorough: map[string]int{"N": 5},
+		Covers: []string{"accepted", "rejected", "incomplete"}, UnitDepth: 3,
+		Note: "every byte string of length <= N through oj.Parser.Parse, Parser.ParseReader, Validator{OnlyOne}, Tokenizer{OnlyOne}, gen.Parser.Parse vs the RFC 8259 reference recogniser"}
+	for _, pa := range []struct {
+		prop    string
+		asserts []string
+	}{{"C01", []string{"accept-iff-valid"}}, {"C06", []string{"no-panic"}}, {"C09", []string{"pos"}}} {
+		s := direct
+		s.Property, s.Asserts = pa.prop, pa.asserts
+		add(s)
 	}
+	return r
 }
